@@ -303,6 +303,13 @@ def run(rep, ctx):
             for what, sig in monitor(c["steps"], c["engine"], res):
                 out.append(dict(case=c, what=what, signature=sig))
         return out
+    # stopChild / stop() on a child that had already FINISHED while it still owned children and delayed sends (implementation only:
+    # Model/Actors.v has no `finish` step) - the family and monitor of the C14 check, here for "stopChild and the parent's stop() stop
+    # the child and all its descendants ... so they receive and emit nothing afterwards"
+    from harness.props import c14
+    ffails, fstats = c14.finished_component(c14.finished_child_family(random.Random(ctx["seed"] * 7919 + 1514), 200 if ctx["tier"] == "thorough" else 60))
+    failures += ffails
+    rep.coverage["components"]["monitor: stopChild / stop() of a finished child that owns descendants (implementation only)"] = fstats
     core.decide(rep, ctx["proof"], disagreements, failures, search)
     rep.assumptions += ["every actor runs a recording machine (no state changes of its own), operations are triggered one at a time at quiescent "
                         "points: interleavings of handlers of different actors inside one macrostep are outside the model",
@@ -314,6 +321,9 @@ def replay(payload):
     if not case:
         print("no concrete case:", payload.get("broken"))
         return 1
+    if case.get("finished_child"):
+        from harness.props import c14
+        return c14.replay(payload)
     steps = [tuple(s[:3]) + ([tuple(o) for o in s[3]],) if s[0] == "do" else tuple(s) for s in case["steps"]]
     res = actors.run_impl_case((steps, case["engine"], case.get("max_iter")))
     for st, tr in zip(steps, res["trace"]):
